@@ -541,6 +541,7 @@ func c01OverlayRuns(c *ctx, tmp string) {
 		ctxb := context.Background()
 		ref := map[string]int{}
 		var refs []blob.Ref
+		var pre, ops, outs []string // the same history for the Rocq model of overlay[memory memory]
 		for i := 0; i < 9+c.rng.Intn(4); i++ {
 			data := []byte(fmt.Sprintf("lower blob %d of round %d seed %d", i, round, c.seed))
 			br := blob.RefFromBytes(data)
@@ -551,6 +552,12 @@ func c01OverlayRuns(c *ctx, tmp string) {
 			if _, err := blobserver.Receive(ctxb, where, br, bytes.NewReader(data)); err != nil {
 				c.rep.Notes = append(c.rep.Notes, "overlay preload: "+err.Error())
 				return
+			}
+			if i%4 == 3 {
+				ops = append(ops, fmt.Sprintf("Recv %s %s false", qs(br.String()), qh(data)))
+				outs = append(outs, fmt.Sprintf("ORecv %d", len(data)))
+			} else {
+				pre = append(pre, fmt.Sprintf("(0%%nat, %s, %s)", qs(br.String()), qh(data)))
 			}
 			ref[br.String()] = len(data)
 			refs = append(refs, br)
@@ -564,9 +571,13 @@ func c01OverlayRuns(c *ctx, tmp string) {
 				c.violation(-1, "c01-overlay-remove", fmt.Sprintf("overlay over a populated lower layer: RemoveBlobs: %v", err), nil)
 				return
 			}
+			var rq []string
 			for _, r := range run {
 				delete(ref, r.String())
+				rq = append(rq, qs(r.String()))
 			}
+			ops = append(ops, "Remove "+qlist(rq))
+			outs = append(outs, "OOk")
 		}
 		var left []string
 		for r := range ref {
@@ -584,6 +595,10 @@ func c01OverlayRuns(c *ctx, tmp string) {
 			for limit := 1; limit <= len(refs)+1; limit++ {
 				c.rep.SpecChecks++
 				got, err := enumAll(root.sto, cur, limit)
+				if err == nil && limit <= 3 {
+					ops = append(ops, fmt.Sprintf("Enum %s %d", qs(cur), limit))
+					outs = append(outs, "OEnum "+qsized(got))
+				}
 				var want []string
 				for _, r := range left {
 					if r > cur && len(want) < limit {
@@ -600,6 +615,8 @@ func c01OverlayRuns(c *ctx, tmp string) {
 				}
 			}
 		}
+		c.addCase(fmt.Sprintf("CHist (%s) %s %s %s %s", root.coq(), qlist(pre), qlist(ops), qlist(outs), qlist([]string{"None", "None"})),
+			map[string]any{"config": root, "describe": desc, "ops": len(ops)}, true)
 		root.closeAll()
 	}
 }
